@@ -123,6 +123,21 @@ class Taint:
                 self.has_div = True
                 for a in e.args:
                     self.ev(a)
+                w_ = next((k.value for k in e.keywords if k.arg == 'where'), None)
+                if w_ is not None and not (isinstance(w_, ast.Constant) and w_.value is True):
+                    # a masked division leaves the entries the mask excludes at whatever `out` held: an undefined quotient (empty
+                    # class, constant column: 0/0) becomes the finite prefilled value instead of NaN - unless out was filled with NaN
+                    o_ = next((k.value for k in e.keywords if k.arg == 'out'), None)
+                    nan_filled = False
+                    if isinstance(o_, ast.Name):
+                        for n_ in ast.walk(self.fnode):
+                            if isinstance(n_, ast.Assign) and len(n_.targets) == 1 and isinstance(n_.targets[0], ast.Name) and n_.targets[0].id == o_.id and isinstance(n_.value, ast.Call) \
+                                    and norm(n_.value.func).split('.')[-1] in ('full', 'full_like') and len(n_.value.args) >= 2 and norm(n_.value.args[1]).split('.')[-1].lower() == 'nan':
+                                nan_filled = True
+                    if not nan_filled:
+                        self.out.append(('bad', e, f'`{norm(e)[:80]}` divides only where the mask holds: where the denominator is zero (an empty class, no trace) the result keeps the value `out` was '
+                                         'prefilled with - a finite number where the definition is undefined (NaN)'))
+                        self.lost = True
                 return MAYINF
             if self.prog is not None and self.func is not None and self.depth < 2 and isinstance(e.func, ast.Name):
                 r = self.prog.resolve(self.func.mod, e.func)
